@@ -84,6 +84,11 @@ class BaseMixin:
             return SV(self.ct.opt_some(ty.elem, v.term), ty, oid=v.oid, fresh=v.fresh)
         if isinstance(ty, TReal) and isinstance(v.ty, TInt):
             return SV(z3.ToReal(v.term), ty)
+        if isinstance(v.ty, TOpt) and v.ty.elem == ty:
+            # an Optional used where its value is needed: only when the path condition excludes None
+            if self.ex.entails(z3.Not(self.ct.opt_is_none(ty, v.term))):
+                return SV(self.ct.opt_the(ty, v.term), ty, oid=v.oid, fresh=v.fresh)
+            raise Untranslatable(f'possibly-None value used as {ty!r}')
         if isinstance(ty, TVal):
             V = self.ct.Val
             if isinstance(v.ty, TBool):
